@@ -413,12 +413,26 @@ type c15Oracle struct {
 	collisions              int
 	newEntries              int
 	divergences             []string
+
+	// binding observations (c15_bind_test.go): what a bound TrackLocal is told to use
+	dry         bool     // collect the signatures entryChecks would report instead of reporting them
+	dryHits     []string //
+	bindLog     []string // driver operations of a bind case, for the replay file
+	bindsJudged int
+	bindTrail   map[string]any
+	prefTr      map[*RTPTransceiver]bool // transceivers with workload-set codec preferences
 }
 
 func (o *c15Oracle) detail(extra map[string]any) map[string]any {
 	d := map[string]any{
 		"mode": o.mode, "multi_codec": o.multi, "local_video": o.local["video"], "local_audio": o.local["audio"],
 		"remote_descriptions": o.texts, "bundle_consistent_payload_types": o.legal,
+	}
+	if len(o.bindLog) > 0 {
+		d["operations"] = o.bindLog
+	}
+	for k, v := range o.bindTrail {
+		d[k] = v
 	}
 	for k, v := range extra {
 		d[k] = v
@@ -434,6 +448,14 @@ func (o *c15Oracle) diverge(kind string) {
 }
 
 func (o *c15Oracle) violation(sig, what string, extra map[string]any) {
+	if o.dry {
+		o.dryHits = append(o.dryHits, sig)
+
+		return
+	}
+	if o.bindTrail != nil {
+		what = fmt.Sprintf("track bound by %v (%v): %s", o.bindTrail["bind_path"], o.bindTrail["bind_step"], what)
+	}
 	o.run.Violation(sig, fmt.Sprintf("[%s] %s", o.mode, what), o.idx, o.detail(extra))
 }
 
@@ -483,6 +505,9 @@ func (o *c15Oracle) entryChecks(prefix, kind string, e c15Codec) {
 		}
 	}
 	if sig, why := o.clockBlind(kind, e, len(samePT) == 0); sig != "" {
+		if strings.HasPrefix(prefix, "bind:") {
+			sig = prefix + sig // a codec handed to a track although it is not the negotiated entry: the binding path is part of the cause
+		}
 		o.violation(sig, fmt.Sprintf("%s%s codec %s in use: %s", prefix, kind, e, why), map[string]any{"entry": e, "observed_at": prefix})
 
 		return
@@ -892,12 +917,23 @@ func (o *c15Oracle) blackBox(pc *PeerConnection, phase string) {
 				o.entryChecks(prefix, kind, e)
 			}
 		}
+		// A transceiver on which the workload called SetCodecPreferences (bind cases only): GetParameters().Codecs then
+		// describes the user's preferences (RTPTransceiver.getCodecs, used for the local SDP only - C16's subject, see its
+		// finding codec-preference-pt-kept), not the codec that is used to send, which those cases observe directly at
+		// TrackLocal.Bind. Judging the description would be stricter than the statement: logged as model divergence.
+		o.dry = o.prefTr[tr]
+		before := len(o.dryHits)
 		if s := tr.Sender(); s != nil {
 			check("params:", s.GetParameters().Codecs)
 		}
 		if rc := tr.Receiver(); rc != nil {
 			check("params:", rc.GetParameters().Codecs)
 		}
+		o.dry = false
+		for _, sig := range o.dryHits[before:] {
+			o.diverge("getparameters-of-transceiver-with-codec-preferences:" + sig)
+		}
+		o.dryHits = o.dryHits[:before]
 	}
 	_ = phase
 }
@@ -1545,7 +1581,7 @@ func c15ErrClass(err error) string {
 	s := err.Error()
 	for _, k := range []string{
 		"codec already registered", "payload type not found", "invalid syntax", "value out of range", "no codecs", "unable to populate",
-		"failed to find", "codec is not supported",
+		"failed to find", "codec is not supported", "unsupported codec type by this transceiver", "invalid state change in RTPTransceiver",
 	} {
 		if strings.Contains(s, k) {
 			return k
@@ -1599,14 +1635,28 @@ func TestVerifC15(t *testing.T) { //nolint:gocognit,cyclop,gocyclo,maintidx
 		"whose codec lists are derived from the local ones (copies, fmtp/clock/channel/case mutations, unknown codecs, RTX before/after its primary, "+
 		"remote payload types equal to / colliding with / different from local ones), multi-codec negotiation on/off; 2/3 of the cases drive "+
 		"MediaEngine.updateFromRemoteDescription directly, 1/3 go through PeerConnection.SetRemoteDescription (as answerer and as offerer). "+
-		"A case is non-trivial when at least one codec was negotiated under a payload type that no matching local codec is registered on; "+
-		"distinct by local registrations + remote description texts")
+		"A further block of cases (modes bind-answerer / bind-offerer, c15_bind_test.go) puts sending tracks on the PeerConnection (AddTrack / "+
+		"AddTransceiverFromTrack sendonly|sendrecv, own TrackLocal with a seeded codec choice rule or wrapping TrackLocalStaticRTP), random "+
+		"SetCodecPreferences on their transceivers (subset/order of the local or negotiated codecs, payload type explicit or 0), and between the "+
+		"1-3 negotiation rounds ReplaceTrack / ReplaceTrack(nil)+ReplaceTrack / RemoveTrack+AddTrack / new preferences / new senders; every "+
+		"TrackLocal.Bind (at negotiation by RTPSender.Send, by ReplaceTrack, on a reused transceiver) is recorded and the codec the track is bound "+
+		"with (and its rtx companion) is judged by the same clauses. "+
+		"A case is non-trivial when at least one codec was negotiated under a payload type that no matching local codec is registered on "+
+		"(bind cases: and at least one track was bound after its kind appeared in an applied remote description); "+
+		"distinct by local registrations + remote description texts (+ operations of a bind case)")
 	defer run.Finish()
 	run.Assume("the locally registered codec lists are read back from MediaEngine.videoCodecs/audioCodecs after RegisterCodec (input, not behaviour under test)")
-	run.Assume("TrackRemote.Codec() and the payload type on sent RTP are not observed (no media flows); the negotiated set is observed white-box and through GetParameters")
+	run.Assume("TrackRemote.Codec() is not observed (no media flows); the negotiated set is observed white-box and through GetParameters; the codec used to send is " +
+		"observed as the codec a TrackLocal is bound with (TrackLocalContext.CodecParameters() and the codec Bind selects from it: the payload type a track writes)")
 
 	n := kit.N(3000, 75000)
-	run.Parallel(n, 8, func(i int) {
+	nBind := kit.N(1200, 30000) // cases n .. n+nBind-1: binding paths (c15_bind_test.go)
+	run.Parallel(n+nBind, 8, func(i int) {
+		if i >= n {
+			c15BindCase(run, i)
+
+			return
+		}
 		r := run.CaseRand(i)
 		me := c15Register(r)
 		multi := r.Chance(0.6)
